@@ -1,23 +1,33 @@
 (* C03 — A flow runs for a transaction exactly when its own filter accepts it.
-   Final statements only; proofs are in Repr.v / Select.v / Proofs.v.
+   Final statements only; proofs are in Repr.v / Stars.v / Select.v / Exact.v / Proofs.v.
 
-   Objects (Model.v, Trie.v = the code with the repairs F-C03a/b/d/e):
+   Objects (Model.v, Trie.v = the code as it is in /repo, repairs F-C03a/b/d/e included):
      tree_of fs        the FilterTree after AddFlow-ing the flows fs in list order
      get_flow t x      the flows FilterTree.GetFlow returns for transaction x
      exec_flow run ..  Stream.ExecuteFlow as far as selection goes
-   Vocabulary (Spec.v, written from the property text):
+   Vocabulary (Spec.v, SpecLocal.v, written from the property text):
      matches pat url   literal = same token of the same kind, {p} = one part of
                        that kind, trailing * = at least one further part of the
                        kind it was written in (or none when the URL is host-only)
+     matches_lax       the same, a trailing * swallows parts of ANY kind (the code)
      constraints_hold  the flow's own method / header / query / status requirements
-     unshadowed        no more specific literal pattern is configured alongside
+     unshadowed_k      no more specific literal pattern is configured alongside
+                       (kind-aware; unshadowed = the older, kind-blind, stronger one)
    Hypotheses (all decidable, all computed by the monitor too):
      load_ok fs          every AddFlow succeeded (else the engine refuses to start)
-     stars_last fs       * occurs only as the last part of a pattern
-     kind_consistent fs  no host-label / path-segment collision   (open finding F-C03c)
-     wild_kind_ok p url  the part under a trailing * has the *'s kind (open finding F-C03f) *)
+     kc_at fs f url      no configured pattern collides (host label vs path segment)
+                         with f's pattern on a node the look-up of url reads
+     kc_url fs url       no two configured patterns collide on such a node
+                         (both: open finding F-C03c, localised; implied by the
+                         older global kind_consistent fs)
+     wild_kind_ok p url  the part under a trailing * has the *'s kind (open finding F-C03f)
+   stars_last fs (a wildcard only as the last part) is NOT a hypothesis any more: it follows
+   from load_ok (C03_load_ok_stars_last).  The five theorems C03_sound,
+   C03_sound_lax, C03_complete, C03_order_independent, C03_no_match_no_action keep
+   their original statements (other units apply them positionally); the
+   statements with the narrower hypotheses are the ones named _at / _url / _exact. *)
 From Coq Require Import List ZArith Bool Permutation String.
-From Verif Require Import C03.Trie C03.Model C03.Spec C03.Proofs.
+From Verif Require Import C03.Trie C03.Model C03.Spec C03.SpecLocal C03.Proofs C03.Stars C03.Exact C03.Accept.
 Import ListNotations.
 Open Scope Z_scope.
 
@@ -87,6 +97,222 @@ Theorem C03_no_match_no_action_lax :
 Proof. intros. apply no_match_no_action; assumption. Qed.
 Print Assumptions C03_no_match_no_action_lax.
 
+(* ================================================================
+   The same four clauses with the narrowest hypotheses
+   ================================================================ *)
+
+(* ---- the loader accepts a * only as the last part of a pattern ---- *)
+Theorem C03_load_ok_stars_last : forall fs, load_ok fs = true -> stars_last fs = true.
+Proof. exact load_ok_stars_last. Qed.
+Print Assumptions C03_load_ok_stars_last.
+
+(* ---- only if, no side condition at all: whatever is selected is a loaded
+        flow whose OWN method / header / query / status requirements hold ---- *)
+Theorem C03_selected_own_constraints : forall fs x f,
+  load_ok fs = true -> In f (get_flow (tree_of fs) x) -> In f fs /\ constraints_hold f x.
+Proof.
+  intros fs x f HL H. split; [eapply get_flow_in_fs; eauto|].
+  apply qualifies_iff. eapply get_flow_qualifies; eauto.
+Qed.
+Print Assumptions C03_selected_own_constraints.
+
+(* ---- only if, URL pattern: F-C03c localised to the selected flow and the URL ---- *)
+Theorem C03_sound_at : forall fs x f,
+  load_ok fs = true -> In f (get_flow (tree_of fs) x) ->
+  kc_at fs f (url_of x) = true -> wild_kind_ok (pat f) (url_of x) = true ->
+  In f fs /\ matches (pat f) (url_of x) = true /\ constraints_hold f x.
+Proof.
+  intros fs x f HL H HK HW. destruct (sound_at fs x f HL H HK) as [H1 [H2 [_ H4]]].
+  split; [exact H1|]. split; [exact (H4 HW) | apply qualifies_iff; exact H2].
+Qed.
+Print Assumptions C03_sound_at.
+
+Theorem C03_sound_lax_at : forall fs x f,
+  load_ok fs = true -> In f (get_flow (tree_of fs) x) -> kc_at fs f (url_of x) = true ->
+  In f fs /\ matches_lax (pat f) (url_of x) = true /\ constraints_hold f x.
+Proof.
+  intros fs x f HL H HK. destruct (sound_at fs x f HL H HK) as [H1 [H2 [H3 _]]].
+  split; [exact H1|]. split; [exact H3 | apply qualifies_iff; exact H2].
+Qed.
+Print Assumptions C03_sound_lax_at.
+
+(* strict = lax + the F-C03f side condition, exactly: wild_kind_ok is not broader than the finding *)
+Theorem C03_strict_is_lax_and_wild_kind_ok : forall p url,
+  matches p url = matches_lax p url && wild_kind_ok p url.
+Proof. exact matches_split. Qed.
+Print Assumptions C03_strict_is_lax_and_wild_kind_ok.
+
+(* ---- if: F-C03c localised, kind-aware proviso ---- *)
+Theorem C03_complete_at : forall fs x f,
+  load_ok fs = true -> kc_at fs f (url_of x) = true -> In f fs ->
+  matches (pat f) (url_of x) = true -> constraints_hold f x ->
+  unshadowed_k fs f (url_of x) = true ->
+  In f (get_flow (tree_of fs) x).
+Proof.
+  intros fs x f HL HK Hf HM HC HU. apply complete_at; auto.
+  - rewrite matches_split in HM. apply andb_true_iff in HM. tauto.
+  - apply qualifies_iff. exact HC.
+Qed.
+Print Assumptions C03_complete_at.
+
+(* the kind-blind proviso of C03_complete is the stronger premise *)
+Theorem C03_unshadowed_implies_unshadowed_k : forall fs f url,
+  unshadowed fs f url = true -> unshadowed_k fs f url = true.
+Proof. intros fs f url. apply unshadowed_unshadowed_k. Qed.
+Print Assumptions C03_unshadowed_implies_unshadowed_k.
+
+(* the proviso pattern by pattern, as the monitor computes it *)
+Theorem C03_unshadowed_k_pattern_by_pattern : forall fs f url,
+  unshadowed_k fs f url = negb (existsb (fun g => more_specific_from (pat f) (pat g) url) fs).
+Proof. exact unshadowed_k_shadowed_k. Qed.
+Print Assumptions C03_unshadowed_k_pattern_by_pattern.
+
+(* ---- EXACTLY WHEN: selected <-> loaded, own filter accepted, not shadowed ---- *)
+Theorem C03_exact_lax : forall fs x f,
+  load_ok fs = true -> kc_url fs (url_of x) = true ->
+  (In f (get_flow (tree_of fs) x) <->
+   In f fs /\ matches_lax (pat f) (url_of x) = true /\ constraints_hold f x /\
+   unshadowed_k fs f (url_of x) = true).
+Proof.
+  intros fs x f HL HK. rewrite (exact_lax fs x f HL HK). rewrite qualifies_iff. reflexivity.
+Qed.
+Print Assumptions C03_exact_lax.
+
+Theorem C03_exact : forall fs x f,
+  load_ok fs = true -> kc_url fs (url_of x) = true ->
+  (In f (get_flow (tree_of fs) x) /\ wild_kind_ok (pat f) (url_of x) = true <->
+   In f fs /\ matches (pat f) (url_of x) = true /\ constraints_hold f x /\
+   unshadowed_k fs f (url_of x) = true).
+Proof.
+  intros fs x f HL HK. rewrite (C03_exact_lax fs x f HL HK), matches_split, andb_true_iff. tauto.
+Qed.
+Print Assumptions C03_exact.
+
+(* ---- load order, acceptance: whether the loader accepts the configuration is a
+        property of the SET of flows (every pattern valid, parameter names agree) ---- *)
+Theorem C03_load_ok_declarative : forall fs, load_ok fs = accepted fs.
+Proof. exact load_ok_accepted. Qed.
+Print Assumptions C03_load_ok_declarative.
+
+Theorem C03_acceptance_order_independent : forall fs fs',
+  Permutation fs fs' -> load_ok fs = load_ok fs'.
+Proof. exact load_ok_perm. Qed.
+Print Assumptions C03_acceptance_order_independent.
+
+(* ---- load order, selection: the same set for this transaction, collisions judged
+        on its URL only; that the other order is accepted too is derived ---- *)
+Theorem C03_order_independent_url : forall fs fs' x,
+  Permutation fs fs' -> load_ok fs = true -> kc_url fs (url_of x) = true ->
+  forall f, In f (get_flow (tree_of fs) x) <-> In f (get_flow (tree_of fs') x).
+Proof.
+  intros fs fs' x HP HL HK f. apply order_independent_url; auto.
+  rewrite <- (load_ok_perm fs fs' HP). exact HL.
+Qed.
+Print Assumptions C03_order_independent_url.
+
+(* ---- multiplicity: a flow is applied at most once (no side condition) ---- *)
+Theorem C03_at_most_once : forall fs x,
+  load_ok fs = true -> NoDup fs -> NoDup (get_flow (tree_of fs) x).
+Proof. exact get_flow_nodup. Qed.
+Print Assumptions C03_at_most_once.
+
+(* hence the selection does not depend on the load order as a MULTISET either *)
+Theorem C03_order_independent_multiset : forall fs fs' x,
+  Permutation fs fs' -> NoDup fs -> load_ok fs = true -> kc_url fs (url_of x) = true ->
+  Permutation (get_flow (tree_of fs) x) (get_flow (tree_of fs') x).
+Proof.
+  intros fs fs' x HP ND HL HK.
+  assert (HL' : load_ok fs' = true) by (rewrite <- (load_ok_perm fs fs' HP); exact HL).
+  apply NoDup_Permutation.
+  - apply get_flow_nodup; assumption.
+  - apply get_flow_nodup; [assumption | eapply Permutation_NoDup; eauto].
+  - intro f. apply order_independent_url; assumption.
+Qed.
+Print Assumptions C03_order_independent_multiset.
+
+(* ---- pass-through, exactly: nobody is invoked and the actions come back
+        untouched IFF no loaded flow is (accepted and not shadowed) ---- *)
+Theorem C03_pass_through_iff :
+  forall (A : Type) (run : list flow -> txn -> A -> A) fs x acts,
+  load_ok fs = true -> kc_url fs (url_of x) = true ->
+  (exec_flow run (tree_of fs) x acts = (acts, []) <->
+   forall f, In f fs ->
+     ~ (matches_lax (pat f) (url_of x) = true /\ constraints_hold f x /\
+        unshadowed_k fs f (url_of x) = true)).
+Proof.
+  intros A run fs x acts HL HK. unfold exec_flow. split.
+  - intros H f Hf HN. destruct (get_flow (tree_of fs) x) as [|g l] eqn:E; [|inversion H].
+    assert (In f (get_flow (tree_of fs) x)) as Hin by (apply C03_exact_lax; tauto).
+    rewrite E in Hin. contradiction.
+  - intro H. destruct (get_flow (tree_of fs) x) as [|g l] eqn:E; [reflexivity|]. exfalso.
+    assert (Hin : In g (get_flow (tree_of fs) x)) by (rewrite E; left; reflexivity).
+    apply C03_exact_lax in Hin; auto. destruct Hin as [Hg HR]. exact (H g Hg HR).
+Qed.
+Print Assumptions C03_pass_through_iff.
+
+(* and when somebody is accepted and not shadowed, the processor machinery IS handed that flow *)
+Theorem C03_accepted_is_handed_over :
+  forall (A : Type) (run : list flow -> txn -> A -> A) fs x acts f,
+  load_ok fs = true -> kc_at fs f (url_of x) = true -> In f fs ->
+  matches (pat f) (url_of x) = true -> constraints_hold f x -> unshadowed_k fs f (url_of x) = true ->
+  exists fl, In f fl /\ exec_flow run (tree_of fs) x acts = (run fl x acts, map f_id fl).
+Proof.
+  intros A run fs x acts f HL HK Hf HM HC HU.
+  pose proof (C03_complete_at fs x f HL HK Hf HM HC HU) as Hin. unfold exec_flow.
+  destruct (get_flow (tree_of fs) x) as [|g l] eqn:E; [contradiction|].
+  exists (g :: l). split; [exact Hin | reflexivity].
+Qed.
+Print Assumptions C03_accepted_is_handed_over.
+
+(* the strict no-match statement with the F-C03f side condition made exact:
+   per flow, "accepted only because a trailing * swallowed a part of the other kind" *)
+Theorem C03_satisfied_lax_split : forall f x,
+  satisfied_lax f x = false <-> satisfied f x = false /\ wildcard_kind_zone f x = false.
+Proof.
+  intros f x. unfold satisfied_lax, satisfied, wildcard_kind_zone.
+  fold (url_of x). rewrite matches_split.
+  destruct (matches_lax (pat f) (url_of x)), (wild_kind_ok (pat f) (url_of x)), (qualifies x f);
+    cbn; split; try tauto; try (intros [? ?]; discriminate); auto.
+Qed.
+Print Assumptions C03_satisfied_lax_split.
+
+Theorem C03_no_match_no_action_exact :
+  forall (A : Type) (run : list flow -> txn -> A -> A) fs x acts,
+  load_ok fs = true -> kc_url fs (url_of x) = true ->
+  (forall f, In f fs -> satisfied f x = false /\ wildcard_kind_zone f x = false) ->
+  exec_flow run (tree_of fs) x acts = (acts, []).
+Proof.
+  intros A run fs x acts HL HK HN. apply C03_pass_through_iff; auto.
+  intros f Hf [HM [HC _]]. specialize (HN f Hf). apply C03_satisfied_lax_split in HN.
+  unfold satisfied_lax in HN. fold (url_of x) in HN. apply qualifies_iff in HC.
+  rewrite HM, HC in HN. discriminate.
+Qed.
+Print Assumptions C03_no_match_no_action_exact.
+
+(* ---- a stream handled as a response WITHOUT a response object (the request
+        stream re-typed after an early response): a flow that requires status
+        codes is never selected for it, whatever is configured (no side condition) ---- *)
+Theorem C03_no_response_no_status_match : forall (t : ftree) x f,
+  t_resp x = true -> resp_status x = None -> f_status f <> [] ->
+  ~ In f (get_flow t x).
+Proof.
+  intros t x f HR HN HS H. apply get_flow_qualifies in H. unfold qualifies in H.
+  apply andb_true_iff in H as [H _]. apply andb_true_iff in H as [H _]. apply andb_true_iff in H as [_ H].
+  unfold status_ok in H. rewrite HR, HN in H. cbn [negb orb] in H.
+  destruct (f_status f); [contradiction | discriminate].
+Qed.
+Print Assumptions C03_no_response_no_status_match.
+
+(* the global condition of the original statements implies the local ones *)
+Theorem C03_kind_consistent_implies_local : forall fs url,
+  kind_consistent fs = true ->
+  kc_url fs url = true /\ forall f, In f fs -> kc_at fs f url = true.
+Proof.
+  intros fs url H. pose proof (kind_consistent_kc_url fs url H) as HU. split; [exact HU|].
+  intros f Hf. apply kc_at_KCat. apply KCU_KCat; [apply kc_url_KCU; exact HU | exact Hf].
+Qed.
+Print Assumptions C03_kind_consistent_implies_local.
+
 (* ======== open findings: the unrestricted statements are false ======== *)
 Definition U (s : string) : flow := mkFlow 0 0 (bs s) [] [] [] [].
 Definition Un (n : Z) (s : string) : flow := mkFlow n 0 (bs s) [] [] [] [].
@@ -140,6 +366,96 @@ Proof.
 Qed.
 Print Assumptions C03_complete_full_refuted.
 
+(* F-C03c breaks the only-if clause as well: "a/a" is selected for "a.a" although
+   its pattern does not accept that URL in any reading *)
+Definition C03_sound_nokc : Prop := forall fs x f,
+  load_ok fs = true -> In f (get_flow (tree_of fs) x) -> matches_lax (pat f) (url_of x) = true.
+Theorem C03_sound_nokc_refuted : ~ C03_sound_nokc.
+Proof.
+  intro H. specialize (H [Un 0 "a.a"; Un 1 "a/a"] (GET "a.a") (Un 1 "a/a") eq_refl).
+  assert (E : matches_lax (pat (Un 1 "a/a")) (url_of (GET "a.a")) = false) by (vm_compute; reflexivity).
+  rewrite H in E; [discriminate|]. vm_compute. right. left. reflexivity.
+Qed.
+Print Assumptions C03_sound_nokc_refuted.
+
+(* ... and the side condition that excludes it is local: the colliding pair does
+   not disturb a transaction whose look-up never reads the collided node *)
+Example C03_local_condition_is_weaker :
+  let fs := [Un 0 "a.a"; Un 1 "a/a"; Un 2 "z/x"] in
+  load_ok fs = true /\ kind_consistent fs = false /\
+  kc_url fs (url_of (GET "z/x")) = true /\ kc_url fs (url_of (GET "a.a")) = false /\
+  kc_at fs (Un 2 "z/x") (url_of (GET "a.a")) = true /\
+  map f_id (get_flow (tree_of fs) (GET "z/x")) = [2].
+Proof. vm_compute. repeat split; reflexivity. Qed.
+
+(* F-C03g: lookupFlow never backtracks.  The NATURAL reading of "no more specific
+   literal pattern is configured alongside" exempts a flow only when a more
+   specific pattern that itself accepts the URL exists (most generous reading of
+   "accepts": accepts_may).  Under that reading completeness is false: with
+   "a/{p}" and "a/b/c/d" configured, GET a/b satisfies the filter "a/{p}", no
+   configured pattern is a better match - and NO flow at all is applied. *)
+Definition C03_complete_natural : Prop := forall fs x f,
+  load_ok fs = true -> kc_url fs (url_of x) = true -> In f fs ->
+  matches (pat f) (url_of x) = true -> constraints_hold f x ->
+  shadowed_by_matching fs f (url_of x) = false ->
+  In f (get_flow (tree_of fs) x).
+Theorem C03_complete_natural_refuted : ~ C03_complete_natural.
+Proof.
+  intro H.
+  specialize (H [Un 0 "a/{p}"; Un 1 "a/b/c/d"] (GET "a/b") (Un 0 "a/{p}") eq_refl eq_refl).
+  assert (E : get_flow (tree_of [Un 0 "a/{p}"; Un 1 "a/b/c/d"]) (GET "a/b") = [])
+    by (vm_compute; reflexivity).
+  rewrite E in H. apply H.
+  - left. reflexivity.
+  - vm_compute. reflexivity.
+  - apply qualifies_iff. vm_compute. reflexivity.
+  - vm_compute. reflexivity.
+Qed.
+Print Assumptions C03_complete_natural_refuted.
+
+(* the transaction of the witness is passed through although it satisfies a filter *)
+Example C03_no_backtrack_witness_passes_through :
+  let fs := [Un 0 "a/{p}"; Un 1 "a/b/c/d"] in
+  satisfied (Un 0 "a/{p}") (GET "a/b") = true /\
+  no_backtrack_zone fs (Un 0 "a/{p}") (url_of (GET "a/b")) = true /\
+  exec_flow (fun _ _ (a : nat) => S a) (tree_of fs) (GET "a/b") 0%nat = (0%nat, []).
+Proof. vm_compute. repeat split; reflexivity. Qed.
+
+(* outside F-C03g (decidable, = the monitor's classifier) the natural reading holds ... *)
+Theorem C03_complete_holds_outside_F_C03g : forall fs x f,
+  load_ok fs = true -> kc_at fs f (url_of x) = true -> In f fs ->
+  matches (pat f) (url_of x) = true -> constraints_hold f x ->
+  shadowed_by_matching fs f (url_of x) = false ->
+  no_backtrack_zone fs f (url_of x) = false ->
+  In f (get_flow (tree_of fs) x).
+Proof.
+  intros fs x f HL HK Hf HM HC HS HZ. apply C03_complete_at; auto.
+  rewrite unshadowed_k_shadowed_k. unfold no_backtrack_zone in HZ. rewrite HS in HZ.
+  cbn [negb] in HZ. rewrite andb_true_r in HZ. rewrite HZ. reflexivity.
+Qed.
+Print Assumptions C03_complete_holds_outside_F_C03g.
+
+(* ... and inside it the flow is NEVER selected: the zone is exactly the loss *)
+Theorem C03_no_backtrack_zone_never_selected : forall fs x f,
+  load_ok fs = true -> kc_url fs (url_of x) = true ->
+  no_backtrack_zone fs f (url_of x) = true -> ~ In f (get_flow (tree_of fs) x).
+Proof.
+  intros fs x f HL HK HZ H. apply C03_exact_lax in H; auto. destruct H as [_ [_ [_ HU]]].
+  rewrite unshadowed_k_shadowed_k in HU. unfold no_backtrack_zone in HZ.
+  apply andb_true_iff in HZ as [HZ _]. rewrite HZ in HU. discriminate.
+Qed.
+Print Assumptions C03_no_backtrack_zone_never_selected.
+
+(* the kind-blind proviso of C03_complete is not necessary for selection:
+   "a.b" (host label b) does not shadow "a/{p}" on GET a/b, the flow IS selected *)
+Example C03_kind_blind_proviso_not_necessary :
+  let fs := [Un 0 "a/{p}"; Un 1 "a.b"] in
+  load_ok fs = true /\ kind_consistent fs = true /\
+  unshadowed fs (Un 0 "a/{p}") (url_of (GET "a/b")) = false /\
+  unshadowed_k fs (Un 0 "a/{p}") (url_of (GET "a/b")) = true /\
+  map f_id (get_flow (tree_of fs) (GET "a/b")) = [0].
+Proof. vm_compute. repeat split; reflexivity. Qed.
+
 (* ======== non-vacuity: the hypotheses hold on a non-trivial configuration ======== *)
 Definition demo : list flow :=
   [ mkFlow 0 0 (bs "api.com/v1/*") [] [] [] [];
@@ -174,3 +490,50 @@ Proof. vm_compute. auto. Qed.
 (* every load order of the demo set is accepted (so C03_order_independent applies) *)
 Example C03_demo_reversed : load_ok (rev demo) = true.
 Proof. vm_compute. reflexivity. Qed.
+
+(* the hypotheses of C03_sound (incl. wild_kind_ok) on a selected flow of the demo *)
+Example C03_demo_wild_kind_ok :
+  let x := mkTxn false (bs "api.com/v1/users/7") (bs "POST") [(bs "x-b", bs "1")] [] 0 in
+  In (nth 0 demo (U "")) (get_flow (tree_of demo) x)
+  /\ wild_kind_ok (pat (nth 0 demo (U ""))) (url_of x) = true
+  /\ kc_url demo (url_of x) = true
+  /\ unshadowed_k demo (nth 1 demo (U "")) (url_of x) = true.
+Proof. vm_compute. repeat split; try reflexivity. right. left. reflexivity. Qed.
+
+(* the hypotheses of C03_no_match_no_action / _exact hold for a transaction on
+   another host when the catch-all system flow is left out *)
+Example C03_demo_no_match :
+  let fs := firstn 4 demo in
+  let x := GET "api.org/v1" in
+  load_ok fs = true /\ kind_consistent fs = true /\ kc_url fs (url_of x) = true /\
+  forallb (fun f => negb (satisfied f x) && wild_kind_ok (pat f) (url_of x)
+                    && negb (wildcard_kind_zone f x)) fs = true /\
+  exec_flow (fun _ _ (a : nat) => S a) (tree_of fs) x 0%nat = (0%nat, []).
+Proof. vm_compute. repeat split; reflexivity. Qed.
+
+(* NoDup hypothesis of C03_at_most_once *)
+Example C03_demo_nodup : NoDup demo.
+Proof.
+  repeat constructor; cbn; intro H; repeat (destruct H as [H|H]; [discriminate H|]); exact H.
+Qed.
+
+(* the declarative acceptance test on the demo and on two rejected configurations *)
+Example C03_demo_accepted :
+  accepted demo = true
+  /\ accepted [U "a/{p}/b"; U "a/{q}"] = false /\ load_ok [U "a/{p}/b"; U "a/{q}"] = false
+  /\ accepted [U "a/*/b"] = false /\ load_ok [U "a/*/b"] = false.
+Proof. vm_compute. repeat split; reflexivity. Qed.
+
+(* the same URL and verb as a request, as its 201 response, and as the request
+   stream handled as a response with no response object: flow 2 (status 201
+   required) only for the real 201 response; flow 1 (no status requirement; its
+   header requirement is not judged on responses) for both response-typed ones *)
+Example C03_demo_no_response :
+  let rq := mkTxn false (bs "api.com/v1/users/7") (bs "POST") [] [(bs "q", bs "1")] 0 in
+  let rs := mkTxn true (bs "api.com/v1/users/7") (bs "POST") [] [(bs "q", bs "1")] 201 in
+  let rn := mkTxn true (bs "api.com/v1/users/7") (bs "POST") [] [(bs "q", bs "1")] no_response in
+  map f_id (get_flow (tree_of demo) rq) = [4; 0; 2]
+  /\ map f_id (get_flow (tree_of demo) rs) = [4; 0; 1; 2]
+  /\ map f_id (get_flow (tree_of demo) rn) = [4; 0; 1]
+  /\ resp_status rn = None /\ resp_status rs = Some 201.
+Proof. vm_compute. repeat split; reflexivity. Qed.
